@@ -202,7 +202,7 @@ func runCase(enc *json.Encoder, c *caseIn, mergers []string) {
 	}
 	// ... and every service on its own, from the same objects: a gateway whose service list shrank.  (A new Set: the
 	// contract's expectation is computed from what the service declared, not from what earlier merges left in the object.)
-	if len(c.Svcs) > 1 && len(shared) > 0 {
+	if len(c.Svcs) > 1 && len(shared) > 0 && c.ID%3 == 0 { // (a third of the sets: keeps the quick tier short)
 		for _, sv := range c.Svcs {
 			sub := &caseIn{ID: c.ID, Svcs: []*mschema.Schema{sv}, Tags: append(append([]string{}, c.Tags...), "alone-after-the-set")}
 			enc.Encode(map[string]interface{}{"ev": "Set", "id": sub.ID, "svcs": sub.Svcs, "tags": sub.Tags})
